@@ -267,6 +267,11 @@ func (w *world) Run(t *rt.Tape, trace bool) *core.Result {
 				}
 				ss.choices[i] = drawChoices(t, n, rH)
 				ss.got[i] = make([]ot.Label, n)
+				if t.Choose(rt.SGen, 2) == 0 { // a result buffer the caller has used before
+					for j := range ss.got[i] {
+						ss.got[i][j], _ = ot.NewLabel(rH)
+					}
+				}
 			}
 			sess[k] = ss
 		}
@@ -456,6 +461,11 @@ func (w *world) Run(t *rt.Tape, trace bool) *core.Result {
 		for i, n := range batches {
 			choices[i] = drawChoices(t, n, rH)
 			recv[i] = make([]ot.Label, n)
+			if t.Choose(rt.SGen, 2) == 0 { // a result buffer the caller has used before
+				for j := range recv[i] {
+					recv[i][j], _ = ot.NewLabel(rH)
+				}
+			}
 			sentBits[i] = make([]uint64, (n+63)/64)
 			recvBits[i] = make([]uint64, (n+63)/64)
 		}
